@@ -776,12 +776,9 @@ func turnRule(c *Ctx, r *Report, rule string) {
 					})
 				})
 				for _, cd := range condsAt(st.Block()) {
-					bo, isB := cd.V.(*ssa.BinOp)
-					if !isB || bo.Op != token.EQL || !cd.Truth {
-						continue
-					}
-					if k, isK := constInt(bo.Y); isK && k == 0 {
-						if lc, isLen := bo.X.(*ssa.Call); isLen && callName(&lc.Call) == "builtin.len" {
+					// any spelling of "the block is empty": len(x) == 0, len(x) < 1, !(len(x) > 0), ... of a slice
+					if x, empty, ok := emptyCond(cd); ok && empty {
+						if _, isSlice := x.Type().Underlying().(*types.Slice); isSlice {
 							okWhere = true
 						}
 					}
